@@ -49,7 +49,7 @@ RULE = ('cases = (a) exhaustive block: one (high in 1..6, master seed) pair with
         "ComputationContext's cache and through tools.prepare_seed; distinct = hash of the case; non-trivial = some sequence has a "
         'non-monotone step or a repeated index, or the draw stream of (seed, high) collides before the largest requested index is served')
 ASSUMPTIONS = ['master seeds are ints in [0, 2**32) (what numpy RandomState accepts); one cache is only ever used with one (seed, high)',
-               'rejection = any exception raised by the call; a call exceeding the draw budget (>= 10000 + 400*(index+1) draws) counts as not returning',
+               'rejection = any exception raised by the call; a call exceeding the draw budget (more than 10000 + 400*(min(index, 5000)+1) draws) counts as not returning',
                'collision counter is computed by the harness from numpy RandomState(seed).randint(high, dtype=uint32) (coverage only, not an oracle)']
 CONFIG = {
     'quick': {'shards': 16, 'cases': 40, 'timeout': 600, 'floor': 300, 'exh_seeds': 64},
@@ -121,7 +121,9 @@ class budget_np:
 
 
 def _budget(index):
-    return 10000 + 400 * (max(int(index), 0) + 1)
+    # in-range indices driven here are <= 3000; refused indices may be huge (2**31 + k) and must not be
+    # given a budget that would let a non-refusing implementation allocate 2**31 draws
+    return 10000 + 400 * (min(max(int(index), 0), 5000) + 1)
 
 
 # ----------------------------------------------------------------------------------------------
@@ -365,6 +367,7 @@ def _run_exh(ctx, case, gs, mon):
             mon.tag = list(seq)
             for i in seq:
                 _call(gs, s, i, high, cache, True)
+            _seq_flags(ctx, seq, high)
             nseq += 1
     ctx.event('exh_sequences', nseq)
     ctx.event('exh_blocks')
@@ -384,10 +387,6 @@ def _run_exh(ctx, case, gs, mon):
                 _call(gs, s, i, high, cache, True)
     if _collides(s, high, high - 1):
         ctx.event('stream_collisions')
-    # a block with high >= 2 contains decreasing and repeated sequences; high == 1 only repeated ones
-    for seq in ((0, 0), (1, 0), (0, 2)):
-        if max(seq) < high:
-            _seq_flags(ctx, seq, high)
     ctx.nontrivial(True)
 
 
@@ -469,20 +468,23 @@ def _run_loader(ctx, case, gs, mon):
             raise Violation('history-dependence', 'loader: generator handed to batch %d under master seed %d is not RandomState(get_sub_seed(seed, %d)) '
                             'computed without a cache' % (i, s, i), {'seed': s, 'index': i, 'history': seq})
     # tools.prepare_seed: derived from the batch generator's seed and index_in_batch, no cache
+    bseed = int(_call(gs, s, seq[0], None))
     mon.origin = 'tools.prepare_seed'
     try:
-        bseed = int(_call(gs, s, seq[0], None))
-        out = {}
         for k in case['in_batch']:
             mon.tag = {'prepare_seed_index_in_batch': k}
             _Budget.left = _budget(k)
             _, kw = tools.prepare_seed(random_state=np.random.RandomState(bseed), index_in_batch=k)
             _Budget.left = None
-            out.setdefault(k, set()).add(int(kw['seed']))
+            if 'seed' not in kw:
+                raise Violation('prepare-seed', 'tools.prepare_seed did not derive a seed', {'batch_seed': bseed, 'index_in_batch': k})
             ctx.event('prepare_seed_calls')
     finally:
         mon.origin = 'direct'
         _Budget.left = None
+    mon.tag = 'no-cache reference'
+    for k in sorted(set(case['in_batch'])):
+        _call(gs, bseed, k, None)
     if _seq_flags(ctx, seq, 2 ** 31):
         ctx.nontrivial(True)
 
